@@ -35,7 +35,7 @@ pub struct C07;
 pub fn kinds_for(k: Kind, r: &mut Rng) -> ConnKind {
     match k {
         Kind::Tcp => *r.pick(&[ConnKind::TcpOnly, ConnKind::TcpOnly, ConnKind::Http1, ConnKind::Tls]),
-        Kind::Tls => *r.pick(&[ConnKind::Tls, ConnKind::Tls, ConnKind::Tls, ConnKind::Http1, ConnKind::Garbage]),
+        Kind::Tls => *r.pick(&[ConnKind::TlsReversed, ConnKind::Tls, ConnKind::Tls, ConnKind::Tls, ConnKind::Http1, ConnKind::Garbage]),
         Kind::Http => *r.pick(&[ConnKind::Http1, ConnKind::Http1, ConnKind::Http2, ConnKind::Http2, ConnKind::Http2Hostile, ConnKind::Garbage, ConnKind::TlsThenHttpResponse, ConnKind::Http1Reversed]),
         Kind::Unified => *r.pick(&[ConnKind::TcpOnly, ConnKind::Tls, ConnKind::Http1, ConnKind::Http2, ConnKind::Http2, ConnKind::Http2Hostile, ConnKind::Garbage, ConnKind::TlsThenHttpResponse, ConnKind::Http1Reversed]),
     }
@@ -223,8 +223,10 @@ impl Prop for C07 {
             let ci = r.usize_below(conns.len());
             let n = conns[ci].steps.len();
             if n > 3 {
-                let k = r.urange(2, n - 1);
-                conns[ci].steps[k].dt_ns += *r.pick(&[21_000_000_000u64, 31_000_000_000, 61_000_000_000, 601_000_000_000]);
+                // (any packet, the connection's SYN included: a connection that starts after everything else has
+                // been silent for a while meets tables full of idle entries)
+                let k = if r.chance(1, 3) { 0 } else { r.urange(2, n - 1) };
+                conns[ci].steps[k].dt_ns += *r.pick(&[21_000_000_000u64, 31_000_000_000, 45_000_000_000, 61_000_000_000, 601_000_000_000]);
             }
         }
         let lens: Vec<usize> = conns.iter().map(|c| c.steps.len()).collect();
